@@ -111,6 +111,13 @@ def _zone_case(args):
                     probes.append(iv.start)
                 if iv.has_end:
                     probes.append(iv.end - eps)
+                else:
+                    # the interval that runs to the end of time must be THE answer for every later instant too
+                    probes.append(Instant.max_value)
+                    probes += [t for t in (Instant.from_utc(y, m, 15, 12, 0) for y in (9997, 9998, 9999) for m in range(1, 13)) if t in iv or (iv.has_start and t >= iv.start)]
+                if not iv.has_start:
+                    probes.append(Instant.min_value)
+                    probes += [t for t in (Instant.from_utc(y, m, 15, 12, 0) for y in (-9998, -9997) for m in (1, 7)) if not iv.has_end or t < iv.end]
                 for t in probes:
                     got = zone.get_zone_interval(t)
                     if got != iv or t not in got:
